@@ -1,5 +1,6 @@
 import PqV.Lemmas.Dataset
 import PqV.Lemmas.DatasetComplete
+import PqV.Gen.PartNumbering
 /-!
 # C19 — an append interrupted before its metadata update leaves the old dataset intact
 
@@ -82,5 +83,11 @@ example :
     readDS (runOps fs ((appendOps false old [[("", [4])], [("", [5, 6])]]).take 4)) = some [1, 2, 3]
     ∧ readDS (runOps fs (appendOps false old [[("", [4])], [("", [5, 6])]])) = some [1, 2, 3, 4, 5, 6] := by
   decide
+
+/-- the source as it stands (REGENERATED from `writer.find_max_part` / `write_multi`): the first new
+    part number of an append is one more than the highest number the metadata references (0 for an
+    empty dataset), computed from the dataset's whole row-group list — the `maxPart` of the model -/
+theorem part_numbering_now : PqV.Gen.PartNumbering.rule = "maxPlusOne" ∧
+    PqV.Gen.PartNumbering.offsetAssignments = ["i_offset=0", "i_offset=find_max_part(fmd.row_groups)"] := by decide
 
 end PqV.Props.C19
